@@ -169,7 +169,7 @@ def register(reg):
     @reg.contract
     class HasExpired(Contract):
         key = H11 + ".has_expired"
-        props = ("C09",)
+        props = ("C09", "C01")
         result_kind = "bool"
         suspends = False
 
@@ -177,7 +177,7 @@ def register(reg):
             s = c.self
             now_evs = c.events("time.monotonic")
             if len(now_evs) != 1:
-                return [("reads_clock_once", ("C09",), False)]
+                return [("reads_clock_once", ("C09", "C01"), False)]
             now = now_evs[0].data["value"].t
             exp = c.new(s, "H11._expire_at")
             keepalive_expired = z3.And(z3.Not(exp.none), now > exp.val.t)
@@ -186,13 +186,13 @@ def register(reg):
             readable = truthy_val(f(stream, str_lit("is_readable")))
             server_disconnected = z3.And(F(c, s, "H11._state") == IDLE, readable)
             r = c.eng.truthy(c.st, c.result)
-            return [("spec", ("C09",), c.eng.z_bool(r) == z3.Or(keepalive_expired, server_disconnected))]
+            return [("spec", ("C09", "C01"), c.eng.z_bool(r) == z3.Or(keepalive_expired, server_disconnected))]
 
     # ------------------------------------------------------------------ aclose
     @reg.contract
     class Close(Contract):
         key = H11 + ".aclose"
-        props = ("C06", "C01", "C05", "C07")
+        props = ("C06", "C01", "C05", "C07", "C08")
         modifies = ("H11._state", "NS.open")
         raises = ["Cancelled"]
         call_raises = []
@@ -201,7 +201,7 @@ def register(reg):
             s = c.self
             stream = c.new(s, "H11._network_stream")
             return [
-                ("state_closed", ("C01", "C05", "C06", "C07"), F(c, s, "H11._state") == CLOSED),
+                ("state_closed", ("C01", "C05", "C06", "C07", "C08"), F(c, s, "H11._state") == CLOSED),
                 ("stream_closed", ("C06",), z3.Not(F(c, stream, "NS.open"))),
             ]
 
@@ -219,7 +219,7 @@ def register(reg):
                     seen_write = True
                 if e.name == "suspend" and not seen_write:
                     ok = False
-            return [("closed_flag_before_first_await", ("C01", "C05", "C07"), ok)]
+            return [("closed_flag_before_first_await", ("C01", "C05", "C07", "C08"), ok)]
 
         exc_checks = lambda self, c, exc: self.checks(c)  # noqa: E731
 
